@@ -14,31 +14,14 @@
   (c) loops       `cif_atoms_nonq`, `cif_adp_aniso`, `adp_labels_are_the_uani_rows` — all atom lists.
 -/
 import ShelxModel.C18
+import ShelxProps.Lemmas.C18Table
+import ShelxProps.Lemmas.C18Doubles
 import Mathlib.Tactic.Linarith
 import Mathlib.Tactic.Push
 
 namespace Shelx.C18
 
 /-! ## (a) operators -/
-
-/-- the translations of the quantifier: k/12 for k = -24 … 24 -/
-def ks : List Int := (List.range 49).map (fun (i : Nat) => (i : Int) - 24)
-
-def sg : List Int := [-1, 0, 1]
-
-def compOfK (k cx cy cz : Int) : Comp := ⟨cx, cy, cz, (k : Rat) / 12⟩
-
-/-- the printed row exists, contains no comma and denotes the row -/
-def compGood (ts : List Char) (c : Comp) : Bool :=
-  match compToCif ts c with
-  | some s => !s.contains ',' && decide (denoteComp s = some c)
-  | none => false
-
-/-- the whole finite table of rows: 49 translations × 26 coefficient patterns (a row of an invertible matrix is
-    not all zero; the all-zero row without translation would be printed as the empty string) -/
-theorem comp_table : ∀ k ∈ ks, ∀ cx ∈ sg, ∀ cy ∈ sg, ∀ cz ∈ sg, (cx ≠ 0 ∨ cy ≠ 0 ∨ cz ≠ 0) →
-    compGood (reprOf k) (compOfK k cx cy cz) = true := by
-  decide +kernel
 
 /-- `c` is a row of the quantifier with translation `k/12` -/
 def RowK (k : Int) (c : Comp) : Prop :=
@@ -160,6 +143,17 @@ theorem legacy_ok_on_halves :
 /-- a value whose denominator is within the bound is returned unchanged (first branch of CPython's function) -/
 theorem limitDen_exact (N : Nat) (x : Rat) (h : x.den ≤ N) : limitDen N x = some x := by
   simp [limitDen, h]
+
+/-- the double nearest to k/12 is snapped to k/12, for every translation of the quantifier (the bound is the one
+    read off the source) -/
+theorem double_table_snaps :
+    ∀ e ∈ doubleTable, limitDen Extracted.C18.fracLimit (mkRat e.2.1 e.2.2) = some ((e.1 : Rat) / 12) :=
+  double_table_snaps_tbl
+
+/-- … and the row printed from the double denotes the row with the exact translation -/
+theorem double_rows_denote : ∀ e ∈ doubleTable, ∀ cx ∈ sg, ∀ cy ∈ sg, ∀ cz ∈ sg, (cx ≠ 0 ∨ cy ≠ 0 ∨ cz ≠ 0) →
+    (compToCif (reprOf e.1) ⟨cx, cy, cz, mkRat e.2.1 e.2.2⟩).bind denoteComp = some (compOfK e.1 cx cy cz) :=
+  double_rows_denote_tbl
 
 /-- a double next to a fraction is snapped to it (the doubles nearest to 1/3 and to 5/6 + 2/3) -/
 example : limitDen 1000 (mkRat 6004799503160661 18014398509481984) = some (1 / 3) := by decide +kernel
